@@ -15,7 +15,7 @@ class World:
 
     def __init__(self, repo, n_init):
         self.ranks = {}
-        self.I = Interp(repo, order=RankOrder(self.ranks, const_ranks=True), max_depth=10)
+        self.I = Interp(repo, order=RankOrder(self.ranks, const_ranks=True))
         self.I.order.ranks = self.ranks
         D = self.I.D
         self.ci = repo.cls(COV)
